@@ -6,7 +6,6 @@ import (
 	"fmt"
 	"go/ast"
 	"go/token"
-	"go/types"
 	"sort"
 	"strings"
 
@@ -474,29 +473,32 @@ func init() {
 				s.Unknown("handle/SetSearch", "-", "anchor (*Url).SetSearch not found")
 			} else {
 				u := ssa.Value(ss.Params[0])
+				g := flatten(c, ss, urlHelpers(c), 2)
 				// (1) clearing path: query = nil, then list truncated in place when it exists
 				var nilStore *ssa.Store
-				var nilBlock *ssa.BasicBlock
+				var nilNode *fnode
 				var nilIdx int
-				for _, b := range ss.Blocks {
-					for i, ins := range b.Instrs {
+				for _, n := range g.Nodes {
+					for i, ins := range n.Instrs {
 						if st, ok := ins.(*ssa.Store); ok && isNilConst(st.Val) {
-							if fa, ok := fieldAddrOf(st.Addr, "Url:query"); ok && fa.X == u {
-								nilStore, nilBlock, nilIdx = st, b, i
+							if fa, ok := fieldAddrOf(st.Addr, "Url:query"); ok && n.Root(fa.X) == u {
+								nilStore, nilNode, nilIdx = st, n, i
 							}
 						}
 					}
 				}
-				isTrunc := func(ins ssa.Instruction) bool {
+				// the list object of this URL: a load of u.searchParams, possibly through a local copy
+				isList := func(m *fnode, v ssa.Value) bool {
+					x, ok := loadOfField(v, "Url:searchParams")
+					return ok && m.Root(x) == u
+				}
+				isTrunc := func(m *fnode, ins ssa.Instruction) bool {
 					st, ok := ins.(*ssa.Store)
 					if !ok {
 						return false
 					}
 					fa, ok := fieldAddrOf(st.Addr, "SearchParams:params")
-					if !ok {
-						return false
-					}
-					if x, ok := loadOfField(fa.X, "Url:searchParams"); !ok || x != u {
+					if !ok || !isList(m, fa.X) {
 						return false
 					}
 					sl, ok := st.Val.(*ssa.Slice)
@@ -509,16 +511,12 @@ func init() {
 				if nilStore == nil {
 					s.Unknown("handle/SetSearch/clear", c.P.Pos(ss.Pos()), "no path of SetSearch stores nil into u.query")
 				} else {
-					ok, r := mustPassBeforeReturn(nilBlock, nilIdx, isTrunc, func(from *ssa.BasicBlock, succ int) bool {
-						iff, isIf := lastIf(from)
-						if !isIf {
-							return false
+					ok, r := mustPassFlat(nilNode, nilIdx, isTrunc, func(m *fnode, succ int) bool {
+						// the branch on which no list exists: a nil test of u.searchParams (or of a local copy of it)
+						if x, trueIsNil, isNT := nilTest(m.If.Cond, "Url:searchParams"); isNT && m.Root(x) == u {
+							return (succ == 0) == trueIsNil
 						}
-						x, trueIsNil, isNT := nilTest(iff.Cond, "Url:searchParams")
-						if !isNT || x != u {
-							return false
-						}
-						return (succ == 0) == trueIsNil // the branch on which no list exists
+						return false
 					})
 					if ok {
 						s.OK("handle/SetSearch/clear", c.P.Pos(nilStore.Pos()), "clearing the query truncates the existing list in place")
@@ -526,36 +524,62 @@ func init() {
 						s.Bad("handle/SetSearch/clear", c.P.Pos(nilStore.Pos()), "clearing the query reaches the return at "+c.P.Pos(r.Pos())+" without emptying an existing parameter list")
 					}
 				}
-				// (2) after the parser call the list is (re)initialised
-				for _, b := range ss.Blocks {
-					for i, ins := range b.Instrs {
-						com, ok := isCallTo(ins, "parser", "BasicParser")
+				// (2) after the parser call the list is (re)initialised from the new query
+				for _, n := range g.Nodes {
+					if n.Fn != ss {
+						continue
+					}
+					for i, ins := range n.Instrs {
+						_, ok := isCallTo(ins, "parser", "BasicParser")
 						if !ok {
 							if ci, isCI := ins.(ssa.CallInstruction); isCI && ci.Common().IsInvoke() && ci.Common().Method.Name() == "BasicParser" {
-								com, ok = ci.Common(), true
+								ok = true
 							}
 						}
 						if !ok {
 							continue
 						}
-						_ = com
-						cut := func(x ssa.Instruction) bool {
-							if cc, ok := isCallTo(x, "SearchParams", "init"); ok {
-								if y, ok := loadOfField(cc.Args[0], "Url:searchParams"); ok && y == u {
-									// argument: *u.query
-									if ld, ok := cc.Args[1].(*ssa.UnOp); ok {
-										if z, ok := loadOfField(ld.X, "Url:query"); ok && z == u {
-											return true
+						cut := func(m *fnode, x ssa.Instruction) bool {
+							// list.init(*u.query) on this URL's list, or on a fresh list bound to this URL (helper inlined)
+							cc, ok := isCallTo(x, "SearchParams", "init")
+							if !ok {
+								return false
+							}
+							ld, ok := cc.Args[1].(*ssa.UnOp)
+							if !ok {
+								return false
+							}
+							if z, ok := loadOfField(ld.X, "Url:query"); !ok || m.Root(z) != u {
+								return false
+							}
+							if isList(m, cc.Args[0]) {
+								return true
+							}
+							// a list allocated here whose url field is set to u (it becomes u.searchParams: PAIR-handle/store rows)
+							if al, ok := cc.Args[0].(*ssa.Alloc); ok && namedOf(al.Type()) == "SearchParams" {
+								for _, r := range *al.Referrers() {
+									if fa, ok := r.(*ssa.FieldAddr); ok && fieldElem(fa.X.Type(), fa.Field) == "SearchParams:url" {
+										for _, r2 := range *fa.Referrers() {
+											if st, ok := r2.(*ssa.Store); ok && m.Root(st.Val) == u {
+												return true
+											}
 										}
 									}
 								}
 							}
-							if cc, ok := isCallTo(x, "Url", "newUrlSearchParams"); ok && cc.Args[0] == u {
-								return true
+							return false
+						}
+						// a fresh list of a URL whose query is nil needs no init: excuse the nil side of a test of u.query
+						excuse := func(m *fnode, succ int) bool {
+							if m.Fn == ss {
+								return false
+							}
+							if x, trueIsNil, isNT := nilTest(m.If.Cond, "Url:query"); isNT && m.Root(x) == u {
+								return (succ == 0) == trueIsNil
 							}
 							return false
 						}
-						if ok, r := mustPassBeforeReturn(b, i, cut, nil); ok {
+						if ok, r := mustPassFlat(n, i, cut, excuse); ok {
 							s.OK("handle/SetSearch/refresh", c.P.Pos(ins.Pos()), "after parsing the new query the list is re-initialised from *u.query (in place) or created")
 						} else {
 							s.Bad("handle/SetSearch/refresh", c.P.Pos(ins.Pos()), "after parsing the new query the return at "+c.P.Pos(r.Pos())+" is reached without re-initialising the parameter list from it")
@@ -850,14 +874,17 @@ func init() {
 					continue
 				}
 				u := ssa.Value(f.Params[0])
-				for _, b := range f.Blocks {
-					for i, ins := range b.Instrs {
+				// the method with its unexported helpers inlined
+				g := flatten(c, f, urlHelpers(c), 2)
+				done := map[string]bool{}
+				for _, n := range g.Nodes {
+					for i, ins := range n.Instrs {
 						st, ok := ins.(*ssa.Store)
 						if !ok || !isNilConst(st.Val) {
 							continue
 						}
 						fa, ok := st.Addr.(*ssa.FieldAddr)
-						if !ok || fa.X != u {
+						if !ok || n.Root(fa.X) != u {
 							continue
 						}
 						el := fieldElem(fa.X.Type(), fa.Field)
@@ -865,28 +892,28 @@ func init() {
 							continue
 						}
 						key := "strip/" + core.FuncName(f) + "/" + strings.TrimPrefix(el, "Url:")
-						cut := func(x ssa.Instruction) bool {
+						if done[key+c.P.Pos(st.Pos())] {
+							continue
+						}
+						done[key+c.P.Pos(st.Pos())] = true
+						cut := func(m *fnode, x ssa.Instruction) bool {
 							cc, ok := isCallTo(x, "path", "stripTrailingSpacesIfOpaque")
 							if !ok {
 								return false
 							}
 							y, ok := loadOfField(cc.Args[0], "Url:path")
-							return ok && y == u
+							return ok && m.Root(y) == u
 						}
-						excuse := func(from *ssa.BasicBlock, succ int) bool {
-							iff, isIf := lastIf(from)
-							if !isIf {
-								return false
-							}
+						excuse := func(m *fnode, succ int) bool {
 							for _, e2 := range []string{"Url:query", "Url:fragment"} {
-								if x, trueIsNil, ok := nilTest(iff.Cond, e2); ok && x == u {
+								if x, trueIsNil, ok := nilTest(m.If.Cond, e2); ok && m.Root(x) == u {
 									// the branch on which the component is non-nil needs no stripping
 									return (succ == 0) != trueIsNil
 								}
 							}
 							return false
 						}
-						if ok, r := mustPassBeforeReturn(b, i, cut, excuse); ok {
+						if ok, r := mustPassFlat(n, i, cut, excuse); ok {
 							s.OK(key, c.P.Pos(st.Pos()), "followed by stripTrailingSpacesIfOpaque unless the other component is present")
 						} else {
 							s.Bad(key, c.P.Pos(st.Pos()), "reaches the return at "+c.P.Pos(r.Pos())+" with query and fragment both nil and no stripping of an opaque path's trailing spaces: the serialization does not re-parse to itself")
@@ -899,42 +926,22 @@ func init() {
 
 	register(&Rule{
 		Name:  "PAIR-guards",
-		Doc:   "sibling setters agree on their applicability guard: SetUsername/SetPassword/SetPort share one early-return condition (a non-empty set of atoms), SetHost/SetHostname/SetPathname another",
+		Doc:   "sibling setters agree on their applicability guard — the atoms about the URL that hold at every store into it and every mutating call, read through unexported helpers and predicate summaries: SetUsername/SetPassword/SetPort share one (non-empty) guard, SetHost/SetHostname/SetPathname another",
 		Props: []string{"C04", "C05"},
 		Floor: 2,
 		Run: func(c *Ctx, s *core.Sink) {
-			pk := c.P.ByName["url"]
+			// the guard of a setter: the atoms about the URL that hold at every one of its effects (stores into the URL,
+			// mutating calls), read through unexported helpers and predicate helpers — however the early return is written
 			guardOf := func(name string) ([]string, token.Pos, bool) {
 				f := c.P.Func("url", "Url", name)
 				if f == nil {
 					return nil, 0, false
 				}
-				fd := c.P.Decl(f)
-				if fd == nil || len(fd.Body.List) == 0 {
-					return nil, 0, false
+				atoms, sites := effectGuard(c, f)
+				if sites == 0 {
+					return nil, f.Pos(), true
 				}
-				ifs, ok := fd.Body.List[0].(*ast.IfStmt)
-				if !ok || ifs.Else != nil || ifs.Init != nil || len(ifs.Body.List) != 1 {
-					return nil, fd.Pos(), true
-				}
-				if r, ok := ifs.Body.List[0].(*ast.ReturnStmt); !ok || len(r.Results) != 0 {
-					return nil, fd.Pos(), true
-				}
-				var atoms []string
-				var flat func(e ast.Expr)
-				flat = func(e ast.Expr) {
-					e = ast.Unparen(e)
-					if be, ok := e.(*ast.BinaryExpr); ok && be.Op == token.LOR {
-						flat(be.X)
-						flat(be.Y)
-						return
-					}
-					atoms = append(atoms, types.ExprString(e))
-				}
-				flat(ifs.Cond)
-				sort.Strings(atoms)
-				_ = pk
-				return atoms, ifs.Pos(), true
+				return atoms, f.Pos(), true
 			}
 			for _, grp := range [][]string{{"SetUsername", "SetPassword", "SetPort"}, {"SetHost", "SetHostname", "SetPathname"}} {
 				var ref []string
@@ -946,12 +953,12 @@ func init() {
 						continue
 					}
 					if len(atoms) == 0 {
-						s.Bad(key, c.P.Pos(pos), "has no early-return applicability guard as its first statement")
+						s.Bad(key, c.P.Pos(pos), "no condition on the URL guards all of its effects (no applicability guard)")
 						continue
 					}
 					if i == 0 {
 						ref = atoms
-						s.OK(key, c.P.Pos(pos), "guard "+strings.Join(atoms, " || "))
+						s.OK(key, c.P.Pos(pos), "holds at every effect: "+strings.Join(atoms, " && "))
 						continue
 					}
 					s.Check(strings.Join(atoms, "|") == strings.Join(ref, "|"), key, c.P.Pos(pos), "same guard as "+grp[0], fmt.Sprintf("guard %v differs from %s's %v", atoms, grp[0], ref))
